@@ -4,7 +4,7 @@
 From Coq Require Import Arith Lia.
 From DC Require Import Disruptor.Pipeline.
 From Coq Require Import ZArith.
-From DC Require Disruptor.HB Disruptor.MultiPub Disruptor.PipeReplay Disruptor.MultiReplay.
+From DC Require Disruptor.HB Disruptor.MultiPub Disruptor.PipeReplay Disruptor.MultiReplay Disruptor.Handlers Disruptor.MultiPipe.
 
 (* in order, exactly once, no gaps: whenever a handler is about to handle a sequence, it is the successor of
    the last one it returned from (it starts at 1: see C04_seq0_never_delivered) *)
@@ -82,6 +82,26 @@ Theorem C04_replayed_multi_producer_run_only_published : forall N, 1 <= N -> for
   forall q, 1 <= q <= MultiPub.cursor (MultiReplay.rm r') -> MultiPub.pub (MultiReplay.rm r') q = true.
 Proof. exact MultiReplay.replay_cursor_only_published. Qed.
 
+(* MULTI-PRODUCER PIPELINE OF ANY TOPOLOGY (Disruptor/MultiPipe.v = the multi-producer sequencer under true concurrency composed
+   with the handler side over any barrier stages): a handler handles sequence i only if its claimant has published it, and i is
+   the successor of the last sequence the handler returned from (in order, exactly once, no gaps) *)
+Theorem C04_multi_pipeline_handles_only_published_in_order : forall N, 1 <= N -> forall H stage last
+  (stage_le : forall h, h < H -> stage h <= last)
+  (stage_nonempty : forall k, k <= last -> exists h, h < H /\ stage h = k) x h i a,
+  MultiPipe.mreachable N H stage last x -> h < H -> Handlers.hp (MultiPipe.hs x) h = HBatch i a ->
+  MultiPub.pub (MultiPipe.ms x) i = true /\ i = S (Handlers.done (MultiPipe.hs x) h).
+Proof. exact MultiPipe.mp_handles_only_published. Qed.
+
+(* ... and while the handler is at i, no producer has claimed the next lap i + N of that slot: the payload is intact *)
+Theorem C04_multi_pipeline_slot_not_reclaimed : forall N, 1 <= N -> forall H stage last
+  (stage_le : forall h, h < H -> stage h <= last)
+  (stage_nonempty : forall k, k <= last -> exists h, h < H /\ stage h = k) x h i a,
+  MultiPipe.mreachable N H stage last x -> h < H -> Handlers.hp (MultiPipe.hs x) h = HBatch i a ->
+  forall t lo hi, MultiPub.tp (MultiPipe.ms x) t = MultiPub.TClaimed lo hi -> hi < i + N.
+Proof. exact MultiPipe.mp_slot_not_reclaimed. Qed.
+
+Print Assumptions C04_multi_pipeline_handles_only_published_in_order.
+Print Assumptions C04_multi_pipeline_slot_not_reclaimed.
 Print Assumptions C04_in_order_exactly_once.
 Print Assumptions C04_replayed_single_producer_run_is_a_model_run.
 Print Assumptions C04_replayed_multi_producer_run_is_a_model_run.
